@@ -9,6 +9,7 @@
 // quorum_call) and the file's proto package is dropped (pkg.Svc.m -> Svc.m). The generated Go identifiers stay the same (protoc-gen-go camel-cases them back),
 // but the wire name of the method now differs from every Go identifier, so a stub or a server
 // registration that derives the wire name from a Go name no longer agrees with the descriptor.
+//
 //	gentool mutate PLUGIN PARAM TARGET METHOD OPT...  same, with extra boolean method options set in memory
 package main
 
@@ -25,6 +26,7 @@ import (
 	"github.com/relab/gorums"
 	_ "github.com/relab/gorums/benchmark"
 	_ "github.com/relab/gorums/cmd/protoc-gen-gorums/dev"
+	"github.com/relab/gorums/ordering"
 	_ "github.com/relab/gorums/tests/config"
 	_ "github.com/relab/gorums/tests/correctable"
 	_ "github.com/relab/gorums/tests/dummy"
@@ -39,6 +41,7 @@ import (
 	"google.golang.org/protobuf/reflect/protoreflect"
 	"google.golang.org/protobuf/reflect/protoregistry"
 	"google.golang.org/protobuf/types/descriptorpb"
+	"google.golang.org/protobuf/types/known/emptypb"
 	"google.golang.org/protobuf/types/pluginpb"
 )
 
@@ -268,11 +271,107 @@ func runPlugin(plugin string, req []byte) (*pluginpb.CodeGeneratorResponse, stri
 	return resp, errb.String(), err
 }
 
+// synthRequest builds, in memory, a service of every call type (with and without per-node arguments,
+// async, server stream) whose request and response messages are all IMPORTED from other packages
+// (google.protobuf.Empty, ordering.Metadata): generated code must qualify every message type.
+func synthRequest(param string) []byte {
+	md := protodesc.ToFileDescriptorProto((&ordering.Metadata{}).ProtoReflect().Descriptor().ParentFile())
+	em := protodesc.ToFileDescriptorProto((&emptypb.Empty{}).ProtoReflect().Descriptor().ParentFile())
+	gf, err := protoregistry.GlobalFiles.FindFileByPath("gorums.proto")
+	if err != nil {
+		fmt.Fprintln(os.Stderr, err)
+		os.Exit(2)
+	}
+	var deps []*descriptorpb.FileDescriptorProto
+	seen := map[string]bool{}
+	var visit func(f protoreflect.FileDescriptor)
+	visit = func(f protoreflect.FileDescriptor) {
+		if seen[f.Path()] {
+			return
+		}
+		seen[f.Path()] = true
+		imps := f.Imports()
+		for i := 0; i < imps.Len(); i++ {
+			visit(imps.Get(i).FileDescriptor)
+		}
+		deps = append(deps, protodesc.ToFileDescriptorProto(f))
+	}
+	visit(gf)
+	visit((&ordering.Metadata{}).ProtoReflect().Descriptor().ParentFile())
+	visit((&emptypb.Empty{}).ProtoReflect().Descriptor().ParentFile())
+	mdT, emT := ".ordering.Metadata", ".google.protobuf.Empty"
+	type mm struct {
+		name    string
+		in, out string
+		opts    []protoreflect.ExtensionType
+		stream  bool
+	}
+	ms := []mm{
+		{"plain_rpc", emT, mdT, nil, false},
+		{"Uni", mdT, emT, []protoreflect.ExtensionType{gorums.E_Unicast}, false},
+		{"Multi", mdT, emT, []protoreflect.ExtensionType{gorums.E_Multicast}, false},
+		{"MultiPerNode", mdT, emT, []protoreflect.ExtensionType{gorums.E_Multicast, gorums.E_PerNodeArg}, false},
+		{"Quorum", mdT, mdT, []protoreflect.ExtensionType{gorums.E_Quorumcall}, false},
+		{"QuorumPerNode", emT, mdT, []protoreflect.ExtensionType{gorums.E_Quorumcall, gorums.E_PerNodeArg}, false},
+		{"QuorumAsync", mdT, emT, []protoreflect.ExtensionType{gorums.E_Quorumcall, gorums.E_Async}, false},
+		{"QuorumAsyncPerNode", mdT, mdT, []protoreflect.ExtensionType{gorums.E_Quorumcall, gorums.E_Async, gorums.E_PerNodeArg}, false},
+		{"Corr", mdT, mdT, []protoreflect.ExtensionType{gorums.E_Correctable}, false},
+		{"CorrPerNode", emT, mdT, []protoreflect.ExtensionType{gorums.E_Correctable, gorums.E_PerNodeArg}, false},
+		{"CorrStream", mdT, emT, []protoreflect.ExtensionType{gorums.E_Correctable}, true},
+	}
+	svc := &descriptorpb.ServiceDescriptorProto{Name: proto.String("Synth")}
+	for _, m := range ms {
+		md := &descriptorpb.MethodDescriptorProto{Name: proto.String(m.name), InputType: proto.String(m.in), OutputType: proto.String(m.out)}
+		if m.stream {
+			md.ServerStreaming = proto.Bool(true)
+		}
+		if len(m.opts) > 0 {
+			md.Options = &descriptorpb.MethodOptions{}
+			for _, e := range m.opts {
+				proto.SetExtension(md.Options, e, true)
+			}
+		}
+		svc.Method = append(svc.Method, md)
+	}
+	_ = md
+	_ = em
+	fdp := &descriptorpb.FileDescriptorProto{
+		Name: proto.String("zzsynth/synth.proto"), Package: proto.String("zzsynth"), Syntax: proto.String("proto3"),
+		Dependency: []string{"gorums.proto", "ordering/ordering.proto", "google/protobuf/empty.proto"},
+		Options:    &descriptorpb.FileOptions{GoPackage: proto.String("github.com/relab/gorums/internal/zzsynth")},
+		Service:    []*descriptorpb.ServiceDescriptorProto{svc},
+	}
+	req := &pluginpb.CodeGeneratorRequest{FileToGenerate: []string{"zzsynth/synth.proto"}, Parameter: proto.String(param), ProtoFile: append(deps, fdp)}
+	b, err := proto.Marshal(req)
+	if err != nil {
+		panic(err)
+	}
+	return b
+}
+
 func main() {
 	if len(os.Args) < 2 {
 		os.Exit(2)
 	}
 	switch os.Args[1] {
+	case "synth":
+		// gentool synth PLUGIN OUTDIR: run the plugin on the synthetic service; prints {"exit_error","stderr","files":[...]}
+		plugin, outdir := os.Args[2], os.Args[3]
+		resp, stderr, err := runPlugin(plugin, synthRequest("paths=source_relative"))
+		res := map[string]interface{}{"exit_error": err != nil, "stderr": stderr}
+		if resp != nil {
+			res["response_error"] = resp.GetError()
+			var names []string
+			for _, f := range resp.File {
+				p := filepath.Join(outdir, f.GetName())
+				os.MkdirAll(filepath.Dir(p), 0o755)
+				os.WriteFile(p, []byte(f.GetContent()), 0o644)
+				names = append(names, f.GetName())
+			}
+			res["files"] = names
+		}
+		b, _ := json.Marshal(res)
+		os.Stdout.Write(b)
 	case "table":
 		b, _ := json.MarshalIndent(table(len(os.Args) > 2 && os.Args[2] == "renamed"), "", " ")
 		os.Stdout.Write(b)
